@@ -25,6 +25,7 @@ CLAIMED = {
     'C08': ('TLC trace validation of the full predicate matrices vs extent-level definitions', '6/C08'),
     'C09': ('TLC trace validation vs filters/ideals and rank order', '6/C09'),
     'C10': ('TLC trace validation vs reduced labelling (object/attribute concepts)', '6/C10'),
+    'C11': ('TLC trace validation of the persistence life cycle (lazy-lattice flag as state) vs Documents.tla; loaded objects compared with recomputed ones through full public observations', '6/C11'),
     'C13': ('TLC trace validation of the complete one-step relation, 2-step paths and random histories vs Definition.tla; DefSys.tla model checked (WF inductive, errors change nothing)', '6/C13'),
     'C14': ('TLC trace validation of all pairs x derivations x follow-up edits with every live handle logged (Frame clause) vs Definition.tla', '6/C14'),
     'C16': ('TLC trace validation vs Junctors.tla (occurring truth-value combinations)', '6/C16'),
@@ -34,7 +35,6 @@ CLAIMED = {
 }
 
 NOT_YET = {
-    'C11': 'not built yet in this revision (Documents.tla / persistence traces are next in DESIGN.md section 12)',
     'C12': 'not built yet in this revision (text-format traces and TLA+ writers are next in DESIGN.md section 12)',
     'C15': 'not built yet in this revision (relational trace clauses are next in DESIGN.md section 12)',
     'C17': 'not built yet in this revision (joint multi-seed trace validation is next in DESIGN.md section 12)',
@@ -94,6 +94,15 @@ TEXTS = {
             'from every state on the real Definition, every 2-step path on a sample (all in the thorough tier) and '
             'thousands of random histories; TLC validates every event against Apply() of Definition.tla: outcome '
             'class, return value, resulting triple, unchanged-on-error, d == Definition(*d), row shape.'),
+    'C11': ('The handle state is (context value, lazy-lattice flag); TracePersist.tla gives every export/load/copy/'
+            'pickle its effect on the flag and every export its exact content (Documents.tla: 0-based index tuples, '
+            'lattice 4-tuples in canonical order). Theorems.tla model checks that a raw load re-derives the canonical '
+            'order from every permutation of the stored list (all tables up to the bound, all permutations for <= 5 '
+            'concepts). Conformance: the real library is driven through dict / JSON (path, PathLike, file object) / '
+            'python-literal (string, file, load()) / pickle (in process and in child interpreters with other hash '
+            'seeds) with and without (lazily present) lattice and with random permutations under raw=True; TLC '
+            'validates the exports field by field and that the full public observation of every loaded object equals '
+            'that of a context recomputed from scratch; lattices up to a few thousand concepts.'),
     'C19': ('Spec -> code -> spec: the inputs are the reachable states of ValSys.tla (valid seeds x at most two '
             'corruption steps, enumerated exhaustively by TLC, which also checks that every seed is valid and that '
             'the document and triple predicates agree); each is fed to the real Context(...) / Context.fromdict(...) '
